@@ -21,11 +21,12 @@ FAIL_WORDS = ('NULL', 'false')
 class C06(HistProp):
     id = 'C06'
     module = 'Cbor.Props.C06'
-    theorems = ['Props.C06.C06_load_any_schedule', 'Props.C06.C06_copy_any_schedule', 'Lemmas.Safe.load_safe', 'Heap.copy_frame_all', 'Props.C06.new1_atomic', 'Props.C06.new2_atomic', 'Props.C06.newMulti_atomic', 'Props.C06.push_atomic', 'Props.C06.map_add_atomic',
+    theorems = ['Props.C06.C06_copy_atomic', 'Props.C06.C06_load_any_schedule', 'Props.C06.C06_copy_any_schedule', 'Heap.copy_spec', 'Lemmas.Safe.load_safe', 'Heap.copy_frame_all', 'Props.C06.new1_atomic', 'Props.C06.new2_atomic', 'Props.C06.newMulti_atomic', 'Props.C06.push_atomic', 'Props.C06.map_add_atomic',
                 'Props.C06.add_chunk_atomic', 'Props.C06.build_tag_atomic', 'Props.C06.set_atomic']
     trusted_base = BASE_TRUST + HEAP_TRUST + [
         'for every oracle: cbor_load reports cleanly (item / NULL + code, no model fault: load_safe) and cbor_copy leaves all pre-existing items intact with balanced books '
-        '(copy_frame_all, copy_counts_all); that a failed cbor_copy / cbor_load / cbor_serialize_alloc leaves NO live block behind is decided by exhaustive fault-schedule '
+        '(copy_frame_all, copy_counts_all), and a failed cbor_copy has released everything it allocated - the heap reads exactly as before, same live items and blocks, no fault on any '
+        'clean-up path (C06_copy_atomic, from copy_spec); that a failed cbor_load / cbor_serialize_alloc leaves NO live block behind is decided by exhaustive fault-schedule '
         'enumeration on implementation and model (which must agree on result, counts, contents, live blocks) and the state-comparison oracle, not by a theorem',
     ]
     rule = ('scenarios: cbor_load of corpus inputs, cbor_copy of corpus trees (incl. shared members), cbor_serialize_alloc, every builder, push / push-move / set / '
